@@ -36,6 +36,9 @@ type AccountDump struct {
 // NOT seen by the fixture: addresses that only contract code touches (SELFDESTRUCT beneficiaries, TRANSFERTOKEN
 // targets, inner CREATEs) - Track them, or look at Unattributed().
 func (c *Chain) Track(addrs ...common.Address) {
+	if c.replica != nil {
+		c.replica.Track(addrs...) // the attached replica shares the universe
+	}
 	for _, a := range addrs {
 		h := crypto.Keccak256Hash(a[:])
 		if _, ok := c.known[h]; !ok {
@@ -96,6 +99,15 @@ func dumpOf(addrHash common.Hash, a state.Account) AccountDump {
 }
 
 var emptyCodeHash = crypto.Keccak256(nil)
+
+// keccakSlack hashes a copy of v that sits in a roomier allocation. x/crypto/sha3 at the repository's pinned version
+// views its input through a *[21]uint64; under -race (checkptr) that aborts the process ("converted pointer straddles
+// multiple allocations") when an input of >= 136 bytes ends less than 168 bytes before the end of its allocation.
+func keccakSlack(v []byte) []byte {
+	buf := make([]byte, len(v), len(v)+256)
+	copy(buf, v)
+	return crypto.Keccak256(buf)
+}
 
 // accounts reads every persisted account. Trie mode: walk of the account trie at the committed root (and of
 // every storage trie). Flat mode: scan of the state database, where an account lives under keccak256(address)
@@ -158,7 +170,7 @@ func (c *Chain) accounts() (known map[common.Address]AccountDump, unknown []Acco
 		k, v := it.Key(), it.Value()
 		switch len(k) {
 		case common.HashLength:
-			if bytes.Equal(crypto.Keccak256(v), k) {
+			if bytes.Equal(keccakSlack(v), k) {
 				continue // contract code stored under its hash
 			}
 			acc, err := decodeAccount(v)
